@@ -17,6 +17,7 @@ from ..runner import Outcome
 from ..tools import TOOLS, AGGS, draw_cfg, Gen, TOOL_NAMES, AGG_NAMES, lib
 from ..tooldiff import Run, ref_tool, ref_agg, build_async, _objs
 from .common import (
+    set_interrupts,
     COMPONENTS_BASE, run_sim, new_sim, finish_outcome, bounded_steps, enumerate_faults,
 )
 
@@ -434,7 +435,7 @@ def run_prepared(prep, st, ctx):
     out = Outcome()
     out.fault_free = False
     sim = new_sim(st, interrupts=False)
-    sim.interrupt_den = (0, 0, 5, 2)[prep.interrupt]
+    set_interrupts(sim, (0, 0, 5, 2)[prep.interrupt])
     if prep.kind == "op":
         run, modename, pos, fault = run_op(prep, st, ctx, out, sim)
         out.shape = (prep.spec.shape_key(), modename, pos, fault[:2] if fault else None)
